@@ -24,7 +24,8 @@ Inductive step :=
 | SAdd (b : block)            (* a whole block, compact proof or streamed *)
 | SRemove (b : block)
 | SAddPartial                 (* push events without a block start, then the streamed block end *)
-| SRemovePartial.
+| SRemovePartial
+| SRestart.                   (* the signer is restored from its store: [restore (persist m)] *)
 
 Definition do_step (fx : fixes) (g : cfg) (m : mon) (st : step) : res mon :=
   match st with
@@ -32,6 +33,7 @@ Definition do_step (fx : fixes) (g : cfg) (m : mon) (st : step) : res mon :=
   | SRemove b => mremove fx g m b
   | SAddPartial | SRemovePartial =>
       '(s, _, _) <- streamed_partial (m_state m) ;; Ok (mkmon s (m_watches m) (m_seen m))
+  | SRestart => Ok (restore (persist m))
   end.
 
 (** [None] = the call panicked; nothing is delivered after a panic *)
@@ -66,6 +68,7 @@ Fixpoint steps_ok (g : cfg) (tf : list block) (sts : list step) : bool :=
                       | t :: tl => block_eqb t b && steps_ok g tl r
                       | [] => false
                       end
+  | SRestart :: r => steps_ok g tf r
   | _ :: _ => false
   end.
 
